@@ -276,7 +276,7 @@ func init() {
 		case "event":
 			alphabet = append(alphabet, "T.unregister", "T.register")
 		}
-		spec := harn.OpSeqSpec{Alphabet: alphabet, DepthQuick: 5, DepthThorough: 7}
+		spec := harn.OpSeqSpec{Alphabet: alphabet, DepthQuick: 5, DepthThorough: 7, NoDedupQuick: 3, NoDedupThorough: 4}
 		spec.Run = func(hist []int, fail func(kind, format string, a ...any)) string {
 			key := ""
 			fails, _ := vsched.RunOnce(10, nodeBody(func(w *World) {
@@ -445,6 +445,16 @@ func init() {
 							model = append(model, r)
 						}
 						sort.Strings(model)
+						// the per-target view of the table (used when the target goes away)
+						cons := map[string]bool{}
+						for _, p := range w.n.targetManager.GetConsumersForTarget(tv) {
+							cons[w.nameOf(p)] = true
+						}
+						for _, on := range []string{"O1", "O2"} {
+							if alive[on] && cons[on] != (rels[on+"|link"] || rels[on+"|monitor"]) {
+								fail("relation-index-mismatch", "after %v: consumers recorded for %s are %v, model relations %v", namesOf(alphabet, hist[:step+1]), tk, cons, model)
+							}
+						}
 						if strings.Join(real, ",") != strings.Join(model, ",") {
 							fail("relation-table-mismatch", "after %v: relation table holds %v for %s, model %v", namesOf(alphabet, hist[:step+1]), real, tk, model)
 						}
